@@ -2,6 +2,7 @@ import Bclv.Proofs.Termination
 import Bclv.Props.C10
 import Bclv.Props.C15
 import Bclv.Proofs.Scoped
+import Bclv.Proofs.ParserScoped9
 /-!
 # C06 — every input ends in a result or an error, never a crash or a hang (partial)
 
@@ -17,19 +18,23 @@ that those outcomes are not reached, and that the machine stops:
   emits no backward jump, the checker rejects `LOOP`);
 * `bind_never_panics` (C15): the binder half of `Unmarshal`.
 
-* `accepted_program_runs` (`Proofs/Scoped.lean`): for one input, if the parser model accepts
-  it and the tree it built passes the scoping checker `scP` (slots below the number of
+* `every_accepted_program_runs` (`Proofs/ParserScoped9.lean`): **for every input**, if the
+  parser model accepts it (and its own step budget was not exhausted), then for every large
+  enough step budget the VM on the compiled program ends with a result or a runtime error:
+  no panic, no internal error, no running out of steps.  It rests on
+  `parse_scoped` (every tree the parser returns is well scoped: slots below the number of
   variables in scope, constant indices in the pool and strings where names are needed,
-  fields only inside blocks, jump distances and variable counts in range), then for every
-  large enough step budget the VM on the compiled program ends with a result or a runtime
-  error — via `evalP_progress` (well-scoped trees never evaluate to `wrong` and end with an
-  empty stack) and compile-correctness (C01).  The checker is computable and the driver
-  evaluates it for every accepted program of the correspondence runs (op `SCOPED`).
+  fields only inside blocks, jump distances and variable counts in range — proved through
+  all the mutual recursion of the parser with a weakest-precondition calculus over the
+  parser monad), `evalP_progress` (well-scoped trees never evaluate to `wrong` and end with
+  an empty stack) and compile-correctness (C01).  The computable checker `scP` for the same
+  predicate is still evaluated by the driver for every accepted program of the
+  correspondence runs (op `SCOPED`), as a cross-check of the model the theorem is about.
 
-Not a theorem: that every tree the *parser* builds passes that checker (resp. that every
-compiled program passes the bytecode checker), and that the parser's own loops make
-progress (the model's `stuck` flag).  Both are checked per input:
-the `wf` stream runs the checker on the compiled form of every generated program
+Not a theorem: that the parser's own loops make progress, i.e. that the model's `stuck` flag
+(fuel `4·tokens + 16` exhausted) is never raised; and everything about the Go code that is
+not in the model.  Both are checked per input:
+the `wf` stream runs the bytecode checker on the compiled form of every generated program
 (including the limit ladders), and the `limits` stream — arbitrary bytes, token soups,
 damaged programs, programs scaled to just below, at and above every implementation limit —
 compares the implementation with the model under a watchdog and with `recover`, so a
